@@ -172,6 +172,56 @@ func c13Extras(cc *CheckCtx) {
 		}
 		cc.audit("parameters-bound-in-fresh-scope", ok && n > 0, fmt.Sprintf("every environment write in eval.extendMacroEnv (%d) goes to the scope it creates itself with NewEnclosedEnvironment, so a macro's own environment is not altered by its uses", n), where)
 	}
+	// separate call sites expand independently: the per-node callbacks of ExpandMacros / DefineMacros carry nothing from
+	// one call site to the next (they write no captured variable and update no captured map or slice)
+	{
+		n, where := 0, ""
+		var bad []string
+		for _, f := range p.allFuncs("eval") {
+			par := f.Parent()
+			if par == nil || (par.Name() != "ExpandMacros" && par.Name() != "DefineMacros" && par.Name() != "evalUnquoteCalls") {
+				continue
+			}
+			n++
+			if where == "" {
+				where = p.fset.Position(f.Pos()).String()
+			}
+			fromFree := func(v ssa.Value) bool {
+				for depth := 0; depth < 6; depth++ {
+					switch x := v.(type) {
+					case *ssa.FreeVar:
+						return true
+					case *ssa.UnOp:
+						v = x.X
+					case *ssa.FieldAddr:
+						// fields of the interpreter state reached through the captured *State are the interpreter's
+						// own (macro store, environment), not per-pass state of the expansion
+						return false
+					case *ssa.IndexAddr:
+						v = x.X
+					default:
+						return false
+					}
+				}
+				return false
+			}
+			for _, b := range f.Blocks {
+				for _, ins := range b.Instrs {
+					switch x := ins.(type) {
+					case *ssa.Store:
+						if fromFree(x.Addr) {
+							bad = append(bad, f.Name()+" stores to a captured variable at "+p.posOf(ins))
+						}
+					case *ssa.MapUpdate:
+						if fromFree(x.Map) {
+							bad = append(bad, f.Name()+" updates a captured map at "+p.posOf(ins))
+						}
+					}
+				}
+			}
+		}
+		cc.audit("call-sites-share-no-state", len(bad) == 0 && n >= 2, fmt.Sprintf("the %d per-node callbacks of ExpandMacros / DefineMacros / unquote evaluation write no captured variable and update no captured map: an expansion cannot depend on an earlier call site; offenders: %v", n, bad), where)
+	}
 	cc.runBounded(BoundedSpec{Name: "expansion-vs-substitution", PkgDir: "repl", File: "c13_macro_test.go", Test: "TestVerifBoundedMacros", TimeoutS: 300,
 		Contract: "ExpandMacros output prints, re-parses and evaluates like the hand-substituted program; nothing is printed during expansion; the same call expands identically after other uses"})
 	cc.Assume = append(cc.Assume,
